@@ -371,7 +371,7 @@ pub fn description_states(thorough: bool, seeds: u64) -> (Vec<String>, Vec<(Stri
 pub fn run(tier: &str, seed: u64) -> i32 {
     let mut report = Report::new("C12", tier, seed, "model_checking");
     let thorough = tier == "thorough";
-    let seeds = if thorough { 64 } else { 8 };
+    let seeds = if thorough { 64 } else { 32 };
     let (states, info) = description_states(thorough, seeds);
     let mut st = isolated_sweep(
         &format!(
